@@ -460,6 +460,18 @@ def materialise(t, root):
                     found = os.path.join(d, rel)
                     break
             if found is None:
+                # an include that must be REFUSED: a file of that name relative to the working directories decoy/ and
+                # decoy/deep, which only a lookup that consults the working directory would find
+                for base in (decoy, deep):
+                    dp = os.path.normpath(os.path.join(base, rel))
+                    if dp.startswith(decoy + os.sep) and not os.path.exists(dp) and not rel.endswith('/'):
+                        try:
+                            os.makedirs(os.path.dirname(dp), exist_ok=True)
+                            with open(dp, 'wb') as f:
+                                f.write(b'\x01\x02\x03\x04' if rel.endswith('.bin') else b'# found relative to the working directory\n')
+                            n += 1
+                        except OSError:
+                            pass
                 continue
             size = os.path.getsize(found)
             # what a lookup of the written path relative to the working directories decoy/ and decoy/deep would find
